@@ -750,3 +750,23 @@ def check_r10_9_image(repo: Repo, chk: Check) -> None:
            'visit_image is overridden and escapes the text' if ok else
            '`.. image:: states.svg` with `:alt: <script>alert("alt")</script>` (or, without :alt:, the address itself) puts a real <script> element inside the <object> tag '
            'of the page: the inherited html4css1.visit_image writes the text without encode()', tr.loc if tr is not None else 'pydoctor/node2stan.py')
+    if vi is None:
+        return
+    # path form: the inherited method is reached either on the branch for images that are NOT presented with <object> (there the text goes into an attribute,
+    # escaped by starttag), or after node['alt'] has been given an encoded text on EVERY path - with or without an :alt: option
+    cfi = CFG(vi)
+    sup = [c for c in calls_in(vi) if call_name(c) == 'visit_image' and isinstance(c.func, ast.Attribute) and isinstance(c.func.value, ast.Call) and call_name(c.func.value) == 'super']
+    if not sup:
+        raise AnalysisError('R10.9: HTMLTranslator.visit_image no longer delegates to the inherited visit_image')
+    stores = [n for n in vi.walk() if isinstance(n, ast.Assign) and any(isinstance(t, ast.Subscript) and const_str(t.slice) == 'alt' for t in n.targets) and
+              any(isinstance(c, ast.Call) and call_name(c) == 'encode' for c in ast.walk(n.value))]
+    for c in sup:
+        st = cfi.stmt_of(c)
+        facts = cfi.dominating_tests(st)
+        plain = any(isinstance(t, ast.Compare) and len(t.ops) == 1 and 'object_image_types' in norm(t) and
+                    ((isinstance(t.ops[0], ast.NotIn) and pol) or (isinstance(t.ops[0], ast.In) and not pol)) for t, pol in facts)
+        enc = bool(stores) and cfi.must_pass(cfi.ENTRY, st, stores, no_exc=True)
+        chk.ob('R10.9', f'{TRANSLATOR}.visit_image :: the inherited method only sees an escaped alternate text', plain or enc,
+               'the branch of the images that are not presented with <object>' if plain else "node['alt'] = self.encode(...) on every path" if enc else
+               "a path reaches the inherited visit_image for an <object> image without node['alt'] having been encoded (e.g. only when an :alt: option exists): "
+               '`.. image:: diagrams/<i>X</i><script>alert(1)</script>.svg` without :alt: is copied verbatim between <object> and </object>', repo.loc(vi.mod, c))
